@@ -165,6 +165,8 @@ def replay(i):
                     d1, e1 = kp.load(path)
                     d2, e2 = kp.loads(text)
                     same = session.snapshot(d1) == session.snapshot(d2) and [(x.line, x.encoding) for x in e1] == [(x.line, x.encoding) for x in e2]
+                    session.spoil_document(d1)          # both documents belong to the caller; the same text / file is loaded again later
+                    session.spoil_document(d2)
                 except Exception:  # noqa
                     same = False
                 log.append({'ev': 'load', 'p': list(p), 'same': same})
